@@ -31,6 +31,14 @@ CLAIMED["C16"] = dict(technique=_SRV_T + "; fail-closed comparison edges", note=
     text="All four leader/hash comparison edges, the leader's joined validate results and garble_lang::check are fail-closed with respect to Validated and every Ok reply (mismatch edge: error reply to the validate caller + Break; good edge dominates Validated); check dominates every effect of schedule; polytune::mpc is started only from run x Running and the states leading there are entered only from their predecessors.")
 CLAIMED["C17"] = dict(technique=_SRV_T + "; permit typestate by dominance", note=_SRV_N + " The numeric bound itself is the tokio semaphore's contract.", ref="DESIGN.md §4 C17",
     text="Permit typestate along the extracted relation: the only acquire_owned is in the leader branch of schedule and its completed await dominates run fan-out / Validated / self Run; the permit is taken exactly in run x Running before the spawn and bound inside the future that awaits polytune::mpc with no drop before the call; the Err edge of every joined RPC fan-out (validate, run, consts) ends the policy on every path, notifies the destination if present and never advances the state.")
+_R2_T = "abort-check discovery over rustc MIR: message components by structure-preserving value flow from each receive label, branch conditions classified by ingredients (received bit/MAC, Delta, key, open_commitment, clmul, literals), fail-closed edge analysis, dominance of uses, loop-bypass analysis; obligation table per label"
+_R2_N = "Trusted: rustc MIR; component = value reached from a receive result through structure-preserving edges inside the receiving function; abort check = one branch edge cannot reach Ok(..). Not decided: cryptographic sufficiency of the checks, forgery probability, weakened-but-still-keyed comparisons."
+CLAIMED["C02"] = dict(technique=_R2_T, note=_R2_N, ref="DESIGN.md §3 R2, §4 C02, Appendix B",
+    text="For every protocol message that can influence an output bit, on every CFG path (= for every adversarial message, index, party): the demanded fail-closed checks exist with the right ingredients (R2.1), received bits are used only behind their MAC check (R2.3), absent shares are errors (R2.4), MAC-check loops cannot be shortened by peer-sized vectors (R2.5), no iteration bypasses a check except own-party skips (R2.7), equivocation-sensitive labels use verified broadcast (R2.6). Structural necessary conditions of integrity.")
+CLAIMED["C03"] = dict(technique=_R2_T + "; decrypt result propagation", note=_R2_N, ref="DESIGN.md §4 C03",
+    text="Per authenticated field of each online-phase message the consuming party has a fail-closed abort check (exists, right ingredients, dominates the use, every element and sender, absent => Err), masked inputs use the verified broadcast with conflict rejection, and AEAD failure of garble::decrypt is returned as Err.")
+CLAIMED["C04"] = dict(technique=_R2_T + "; must-precede across awaits by Ready-edge dominance; enumeration of shared-generator draws/clones", note=_R2_N + " Known findings (7) recorded in known_findings.json.", ref="DESIGN.md §3 R2/R3/R4, §4 C04",
+    text="Preprocessing: every verification step named by the property has a fail-closed check reached by the corresponding receive (coin toss, aBit, aShare, LaAND, buckets, Beaver, KOS, Ristretto, echo broadcast), every received commitment component is opened, commit rounds complete (await Ready edge) before the reveal exchange is created and the revealed local is the committed one, and every draw from / clone of a shared challenge generator is enumerated. Genuine protocol-level defects of the pinned tree are recorded as known findings.")
 NA = {}
 
 def main():
